@@ -110,6 +110,8 @@ type StoreWorld struct {
 	StopAtFirst bool
 	step int
 	loc  string
+	last string
+	stepViolations int
 	nextID, nextPayload int
 	batchFirstID string
 }
@@ -239,12 +241,22 @@ func (w *StoreWorld) filter(f *FilterSpec) queue.MessageManageFilterRequest {
 	return req
 }
 
+// sum logs the one-line summary of a step (call, arguments, result) and keeps
+// it for cross-backend comparison (W-diff).
+func (w *StoreWorld) sum(format string, a ...any) {
+	w.last = fmt.Sprintf(format, a...)
+	w.Res.logf("%s", w.last)
+}
+
+func errShort(err error) string { return strings.SplitN(errClass(err), ":", 2)[0] }
+
 func (w *StoreWorld) add(vs []Violation) {
 	for _, v := range vs {
 		if v.Loc == "" {
 			v.Loc = w.loc
 		}
 		w.Res.Violations = append(w.Res.Violations, v)
+		w.stepViolations++
 		w.Res.logf("  VIOLATION %s", v.String())
 	}
 }
@@ -277,6 +289,7 @@ func (w *StoreWorld) observe(opDesc string, refused bool) {
 		sort.Slice(fresh, func(i, j int) bool { return fresh[i].Seq < fresh[j].Seq })
 		for _, x := range fresh {
 			w.ids = append(w.ids, x.ID)
+			w.nameID(x.ID) // name in insertion order: identical on every backend
 		}
 	}
 	w.Res.States = append(w.Res.States, w.Model.Hash())
@@ -325,7 +338,7 @@ func (w *StoreWorld) Exec(s Step) {
 	switch s.Op {
 	case "advance":
 		w.Clock.Advance(s.D)
-		r.logf("advance %s -> %s", s.D, w.Clock.Peek().Format("15:04:05.000000000"))
+		w.sum("advance %s -> %s", s.D, w.Clock.Peek().Format("15:04:05.000000000"))
 		return
 	case "enqueue":
 		env := w.env(now, *s.Env)
@@ -334,7 +347,7 @@ func (w *StoreWorld) Exec(s Step) {
 		if w.Model.Reused[env.ID] {
 			w.loc += "/reused-id"
 		}
-		r.logf("enqueue id=%s route=%s target=%s len=%d -> %s", w.nameID(env.ID), env.Route, env.Target, len(env.Payload), errClass(err))
+		w.sum("enqueue id=%s route=%s target=%s len=%d -> %s", w.nameID(env.ID), env.Route, env.Target, len(env.Payload), errShort(err))
 		w.add(w.Model.Enqueue(now, []queue.Envelope{env}, false, 0, err))
 		if err != nil {
 			r.probe("enqueue.refused." + errClass(err))
@@ -362,7 +375,7 @@ func (w *StoreWorld) Exec(s Step) {
 				break
 			}
 		}
-		r.logf("enqueue_batch n=%d -> %d %s", len(envs), n, errClass(err))
+		w.sum("enqueue_batch n=%d -> %d %s", len(envs), n, errShort(err))
 		w.add(w.Model.Enqueue(now, envs, true, n, err))
 		if err != nil {
 			r.probe("enqueue_batch.refused." + errClass(err))
@@ -373,11 +386,22 @@ func (w *StoreWorld) Exec(s Step) {
 		resp, err := w.Store.Dequeue(req)
 		var got []string
 		for _, it := range resp.Items {
+			// a lease is named after its message and attempt, so that the name
+			// does not depend on the order in which a backend returns items
+			if it.LeaseID != "" {
+				if _, ok := w.names.m[it.LeaseID]; !ok {
+					w.names.m[it.LeaseID] = fmt.Sprintf("L(%s#%d)", strings.Trim(w.nameID(it.ID), `"`), it.Attempt)
+				}
+			}
 			got = append(got, w.nameID(it.ID)+"/"+w.nameLease(it.LeaseID)+fmt.Sprintf("/a%d", it.Attempt))
 		}
-		r.logf("dequeue route=%q target=%q batch=%d ttl=%s -> %v %s", s.Route, s.Target, s.Batch, s.TTL, got, errClass(err))
+		sort.Strings(got)
+		w.sum("dequeue route=%q target=%q batch=%d ttl=%s -> %v %s", s.Route, s.Target, s.Batch, s.TTL, got, errShort(err))
 		w.add(w.Model.Dequeue(now, req, resp, err))
-		for _, it := range resp.Items {
+		// remember the leases in a backend-independent order (by message name)
+		byName := append([]queue.Envelope(nil), resp.Items...)
+		sort.SliceStable(byName, func(i, j int) bool { return w.nameID(byName[i].ID) < w.nameID(byName[j].ID) })
+		for _, it := range byName {
 			if it.LeaseID != "" {
 				w.leases = append(w.leases, it.LeaseID)
 			}
@@ -406,7 +430,7 @@ func (w *StoreWorld) Exec(s Step) {
 		case "dead":
 			op, err = opDead, w.Store.MarkDead(id, s.Reason)
 		}
-		r.logf("%s %s d=%s -> %s", s.Op, w.nameLease(id), s.Delay, errClass(err))
+		w.sum("%s %s d=%s -> %s", s.Op, w.nameLease(id), s.Delay, errShort(err))
 		w.add(w.Model.LeaseSingle(now, op, id, s.Delay, s.Reason, err))
 		r.probe("lease." + s.Op + "." + strings.SplitN(errClass(err), ":", 2)[0])
 		w.observe(s.Op, err != nil)
@@ -437,7 +461,7 @@ func (w *StoreWorld) Exec(s Step) {
 			op = opDead
 			res, err = bs.MarkDeadBatch(ids, s.Reason)
 		}
-		r.logf("%s %v d=%s -> ok=%d conflicts=%s %s", s.Op, shown, s.Delay, res.Succeeded, fmtConf(w.names, res.Conflicts), errClass(err))
+		w.sum("%s %v d=%s -> ok=%d conflicts=%s %s", s.Op, shown, s.Delay, res.Succeeded, fmtConf(w.names, res.Conflicts), errShort(err))
 		w.add(w.Model.LeaseBatch(now, op, ids, s.Delay, s.Reason, res, err))
 		if len(res.Conflicts) > 0 {
 			r.probe("lease.batch.conflict")
@@ -482,7 +506,7 @@ func (w *StoreWorld) Exec(s Step) {
 			resp, err = w.Store.DeleteDead(queue.DeadDeleteRequest{IDs: ids})
 			changed, hasMatched = resp.Deleted, false
 		}
-		r.logf("%s %v -> changed=%d matched=%d %s", s.Op, shown, changed, matched, errClass(err))
+		w.sum("%s %v -> changed=%d matched=%d %s", s.Op, shown, changed, matched, errShort(err))
 		w.add(w.Model.ManageIDs(now, op, ids, changed, matched, hasMatched, err))
 		if changed > 0 {
 			r.probe("manage." + s.Op + ".changed")
@@ -511,7 +535,7 @@ func (w *StoreWorld) Exec(s Step) {
 			resp, err = w.Store.ResumeMessagesByFilter(req)
 			changed, matched, preview = resp.Resumed, resp.Matched, resp.PreviewOnly
 		}
-		r.logf("%s route=%q target=%q state=%q limit=%d before=%v preview=%v -> changed=%d matched=%d preview=%v %s", s.Op, req.Route, req.Target, req.State, req.Limit, !req.Before.IsZero(), req.PreviewOnly, changed, matched, preview, errClass(err))
+		w.sum("%s route=%q target=%q state=%q limit=%d before=%v preview=%v -> changed=%d matched=%d preview=%v %s", s.Op, req.Route, req.Target, req.State, req.Limit, !req.Before.IsZero(), req.PreviewOnly, changed, matched, preview, errShort(err))
 		w.add(w.Model.ManageFilter(now, op, req, changed, matched, preview, err))
 		if matched > 0 {
 			r.probe("manage." + s.Op + ".matched")
@@ -532,7 +556,11 @@ func (w *StoreWorld) Exec(s Step) {
 		for _, x := range want {
 			exp = append(exp, x.ID)
 		}
-		r.logf("list route=%q target=%q state=%q limit=%d order=%q before=%v -> %d items %s", req.Route, req.Target, req.State, req.Limit, req.Order, !req.Before.IsZero(), len(got), errClass(err))
+		var gotNames []string
+		for _, id := range got {
+			gotNames = append(gotNames, w.nameID(id))
+		}
+		w.sum("list route=%q target=%q state=%q limit=%d order=%q before=%v -> %v %s", req.Route, req.Target, req.State, req.Limit, req.Order, !req.Before.IsZero(), gotNames, errShort(err))
 		if !valid {
 			if err == nil {
 				w.add([]Violation{viol("C13.list.order", "C13", "ListMessages accepted invalid order %q", req.Order)})
@@ -552,7 +580,12 @@ func (w *StoreWorld) Exec(s Step) {
 		resp, err := w.Store.ListDead(queue.DeadListRequest{Route: f.Route, Limit: f.Limit, Before: mf.Before, IncludePayload: true, IncludeHeaders: true, IncludeTrace: true})
 		w.observe("list_dead", err != nil)
 		want, _ := w.Model.ListMessages(queue.MessageListRequest{Route: f.Route, State: queue.StateDead, Limit: f.Limit, Before: mf.Before, Order: "desc"})
-		r.logf("list_dead route=%q limit=%d -> %d items %s", f.Route, f.Limit, len(resp.Items), errClass(err))
+		var deadNames []string
+		for _, it := range resp.Items {
+			deadNames = append(deadNames, w.nameID(it.ID))
+		}
+		sort.Strings(deadNames)
+		w.sum("list_dead route=%q limit=%d -> %v %s", f.Route, f.Limit, deadNames, errShort(err))
 		if err != nil {
 			w.add([]Violation{viol("C02.list.error", "C02,C13", "ListDead failed: %v", err)})
 			return
@@ -571,7 +604,11 @@ func (w *StoreWorld) Exec(s Step) {
 	case "stats":
 		st, err := w.Store.Stats()
 		w.observe("stats", err != nil)
-		r.logf("stats -> total=%d %s", st.Total, errClass(err))
+		var top []string
+		for _, b := range st.TopQueued {
+			top = append(top, fmt.Sprintf("%s|%s|%d", b.Route, b.Target, b.Queued))
+		}
+		w.sum("stats -> total=%d bystate=%v top=%v %s", st.Total, fmt.Sprint(st.ByState), top, errShort(err))
 		if err != nil {
 			w.add([]Violation{viol("C02.stats.error", "C02,C13", "Stats failed: %v", err)})
 			return
@@ -583,7 +620,11 @@ func (w *StoreWorld) Exec(s Step) {
 			ids = append(ids, w.idByRef(ref))
 		}
 		resp, err := w.Store.LookupMessages(queue.MessageLookupRequest{IDs: ids})
-		r.logf("lookup n=%d -> %d %s", len(ids), len(resp.Items), errClass(err))
+		var lk []string
+		for _, it := range resp.Items {
+			lk = append(lk, w.nameID(it.ID)+"/"+string(it.State))
+		}
+		w.sum("lookup n=%d -> %v %s", len(ids), lk, errShort(err))
 		if err != nil {
 			w.add([]Violation{viol("C02.lookup.error", "C02,C13", "LookupMessages failed: %v", err)})
 			return
@@ -631,4 +672,103 @@ func RunStoreProgram(p *Program) *Result {
 		}
 	}
 	return w.Res
+}
+
+
+// Canon is the canonical model state used to decide whether two backends that
+// executed the same program are still in the same abstract state (lease ids are
+// generated and therefore left out).
+func (m *Model) Canon() string {
+	var b strings.Builder
+	xs := make([]*Msg, 0, len(m.Msgs))
+	for _, x := range m.Msgs {
+		xs = append(xs, x)
+	}
+	sort.Slice(xs, func(i, j int) bool { return xs[i].ID < xs[j].ID })
+	for _, x := range xs {
+		fmt.Fprintf(&b, "%s|%s|%s|%s|%d|%d|%d|%q|%d|%x;", x.ID, x.Route, x.Target, x.State, x.ReceivedAt.UnixNano(), x.NextRunAt.UnixNano(), x.Attempt, x.DeadReason, x.LeaseUntil.UnixNano(), x.Payload)
+	}
+	return b.String()
+}
+
+// RunDiffProgram (W-diff): the same program on the memory and the SQLite
+// backend under one simulated time line. Each backend is checked against its
+// own copy of the model; in addition every step's observable summary (call,
+// arguments, results with generated ids renamed by first appearance) must be
+// identical while the two abstract states are identical. When the backends
+// legitimately part ways (a dequeue chose different ready messages, a lease
+// sweep or a prune ran at a different moment) the run stops: C13 says nothing
+// about histories after such a choice.
+func RunDiffProgram(p *Program) *Result {
+	pm, ps := *p, *p
+	pm.Store.Backend, ps.Store.Backend = "memory", "sqlite"
+	wm, err := NewStoreWorld(&pm)
+	if err != nil {
+		return &Result{Trouble: "open memory store: " + err.Error()}
+	}
+	defer wm.Close()
+	ws, err := NewStoreWorld(&ps)
+	if err != nil {
+		return &Result{Trouble: "open sqlite store: " + err.Error()}
+	}
+	defer ws.Close()
+	// one time line: the sqlite world is the installed verifclock source; both
+	// stores take their clock through the public Now seam of their world, and
+	// both clocks are advanced by the same steps.
+	res := &Result{}
+	res.logf("diff world max_depth=%d policy=%s retention=%s/%s delivered=%s dlq=%s/%d", p.Store.MaxDepth, p.Store.DropPolicy, p.Store.RetentionMaxAge, p.Store.PruneInterval, p.Store.DeliveredMaxAge, p.Store.DLQMaxAge, p.Store.DLQMaxDepth)
+	start := ws.Clock.Peek()
+	for i, s := range p.Steps {
+		wm.stepViolations, ws.stepViolations = 0, 0
+		wm.Exec(s)
+		ws.Exec(s)
+		res.Ops++
+		res.logf("step %d memory: %s", i, wm.last)
+		res.logf("step %d sqlite: %s", i, ws.last)
+		if wm.Res.Trouble != "" || ws.Res.Trouble != "" {
+			res.Trouble = wm.Res.Trouble + ws.Res.Trouble
+			break
+		}
+		for _, w := range []*StoreWorld{wm, ws} {
+			for _, v := range w.Res.Violations[len(w.Res.Violations)-w.stepViolations:] {
+				res.Violations = append(res.Violations, v)
+				res.logf("  VIOLATION [%s] %s", w.Cfg.Backend, v.String())
+			}
+		}
+		same := wm.Model.Canon() == ws.Model.Canon()
+		if wm.last != ws.last {
+			if same || (s.Op != "dequeue" && wm.stepViolations == 0 && ws.stepViolations == 0 && !legitSplit(s.Op)) {
+				v := viol("C13.diverge."+s.Op, "C13", "same call, same abstract state, different answers: memory {%s} sqlite {%s}", wm.last, ws.last)
+				v.Loc = "diff/" + s.Op
+				res.Violations = append(res.Violations, v)
+				res.logf("  VIOLATION %s", v.String())
+			}
+		}
+		if !same {
+			res.probe("diff.split." + s.Op)
+			res.logf("backends legitimately parted ways at step %d (%s); stop", i, s.Op)
+			break
+		}
+		res.States = append(res.States, wm.Model.Hash())
+	}
+	res.SimTime = int64(ws.Clock.Peek().Sub(start))
+	for _, w := range []*StoreWorld{wm, ws} {
+		for k, v := range w.Res.Probes {
+			if res.Probes == nil {
+				res.Probes = map[string]int{}
+			}
+			res.Probes[k] += v
+		}
+	}
+	return res
+}
+
+// legitSplit: operations after which the abstract states may differ without a
+// defect (sweep timing, prune timing, choice among ready messages).
+func legitSplit(op string) bool {
+	switch op {
+	case "dequeue", "enqueue", "enqueue_batch", "list", "list_dead", "stats":
+		return true // these may prune / sweep / evict among ties
+	}
+	return false
 }
